@@ -150,6 +150,12 @@ def run(tier, seed):
                 continue
             if verdict is True:
                 continue
+            if isinstance(verdict, str):
+                rep.violation("law %s: %s" % (name, verdict),
+                              {"class": cname, "law": name, "lhs": lhs, "rhs": rhs, "impl_lhs": il, "impl_rhs": ir,
+                               "replay": "cd /verif/harness && PYTHONPATH=/repo /venv/bin/python -B -c \"import core_impl as ci; "
+                                         "c=ci.Cls('%s'); print(ci.interp2(c, %r)); print(ci.interp2(c, %r))\"" % (cname, lhs, rhs)})
+                continue
             if is_f20(name, meta, il, ir, ml, mr):
                 rep.known_finding("F20", "distributivity of >> / @ over a sum on the right fails as == when "
                                   "the left factor is a sum of two or more terms (terms agree up to order)")
@@ -175,9 +181,21 @@ def run(tier, seed):
 
 
 def law_holds(ci, cls, lhs, rhs):
-    try:
-        a = common.with_timeout(10.0, ci.interp2, cls, lhs)
-        b = common.with_timeout(10.0, ci.interp2, cls, rhs)
-    except Exception:   # noqa: a refused side means the instance is not composable
+    """True / False, None when BOTH sides are refused (the instance is not composable), or a string
+    when exactly one side is refused: the two sides of a law are defined together."""
+    out = []
+    for side in (lhs, rhs):
+        try:
+            out.append((True, common.with_timeout(10.0, ci.interp2, cls, side)))
+        except Exception as exc:   # noqa
+            if type(exc).__name__ == "CaseTimeout":
+                return None
+            out.append((False, exc))
+    (ok_a, a), (ok_b, b) = out
+    if not ok_a and not ok_b:
         return None
+    if ok_a != ok_b:
+        bad = b if ok_a else a
+        return "%s is refused with %s: %s while the other side is a value" % (
+            "rhs" if ok_a else "lhs", type(bad).__name__, bad)
     return bool(a == b) and bool(b == a)
